@@ -125,6 +125,8 @@ type State struct {
 	HavocEpoch int
 	nBranches int
 	Trace []string
+	dynFnValue Term // the function value of the dynamic call being bound to a contract (`fn` in a funcspec)
+	ghostExtra map[string]TV // extra names visible to ghost statements (results at a return anchor)
 }
 
 func (s *State) clone() *State {
